@@ -39,7 +39,8 @@ def genRebuild {P : Type} (sh : P → List Nat) (image : Img P) (fpixels : P) : 
   let shapechanged0 := (((sh fpixels) != (sh image.pixels)))
   if (image.mask.isSome) then
     if shapechanged0 then
-      (((Img.maskE image).bind fun m => resizeMask m (sh fpixels))).bind fun mask0 =>
+      ((HasMask.maskOf image)).bind fun h_0 =>
+      ((resizeMask h_0 (sh fpixels))).bind fun mask0 =>
         let newimage0 := (Img.mk fpixels (some mask0) [])
         if (!(image.lms.isEmpty)) then
           if shapechanged0 then
@@ -52,18 +53,19 @@ def genRebuild {P : Type} (sh : P → List Nat) (image : Img P) (fpixels : P) : 
         else
           .ok (newimage0)
     else
-      ((Img.maskE image)).bind fun mask0 =>
-        let newimage0 := (Img.mk fpixels (some mask0) [])
-        if (!(image.lms.isEmpty)) then
-          if shapechanged0 then
-            let sf0 := (ratio (sh fpixels) (sh image.pixels))
-            let newimage1 := { newimage0 with lms := scaleLms sf0 image.lms }
-            .ok (newimage1)
-          else
-            let newimage1 := { newimage0 with lms := image.lms }
-            .ok (newimage1)
+      ((HasMask.maskOf image)).bind fun h_1 =>
+      let mask0 := h_1
+      let newimage0 := (Img.mk fpixels (some mask0) [])
+      if (!(image.lms.isEmpty)) then
+        if shapechanged0 then
+          let sf0 := (ratio (sh fpixels) (sh image.pixels))
+          let newimage1 := { newimage0 with lms := scaleLms sf0 image.lms }
+          .ok (newimage1)
         else
-          .ok (newimage0)
+          let newimage1 := { newimage0 with lms := image.lms }
+          .ok (newimage1)
+      else
+        .ok (newimage0)
   else
     let newimage0 := (Img.mk fpixels none [])
     if (!(image.lms.isEmpty)) then
@@ -79,7 +81,9 @@ def genRebuild {P : Type} (sh : P → List Nat) (image : Img P) (fpixels : P) : 
 
 def genRebuildCentres {P : Type} (image : Img P) (fpixels : P) (centres : Centres) : Except Err (Img P) :=
   if (image.mask.isSome) then
-    (((Img.maskE image).bind fun m => genSampleMask m centres)).bind fun mask0 =>
+    ((HasMask.maskOf image)).bind fun h_0 =>
+    ((HasMask.maskOf h_0)).bind fun h_1 =>
+    ((genSampleMask h_1 centres)).bind fun mask0 =>
       let newimage0 := (Img.mk fpixels (some mask0) [])
       if (!(image.lms.isEmpty)) then
         let t0 := (genCentresCorrection centres)
